@@ -11,6 +11,7 @@ use simcore::engine;
 mod keys;
 mod purity;
 mod recipe;
+mod replica;
 mod sign_sim;
 mod signer;
 mod sysseam;
@@ -26,6 +27,10 @@ fn arg(args: &[String], name: &str) -> Option<String> {
 /// that a run does not depend on what the worker executed before it.
 fn child_init(run_seed: u64) {
     sysseam::reseed(run_seed ^ 0x5eed_5eed_5eed_5eed);
+    // std seeds its per-thread hash-map keys with one getrandom call on first use; spend that
+    // call here, before the run, so that injected RNG faults land on rcgen's own draws
+    let warm: std::collections::HashMap<u8, u8> = std::collections::HashMap::new();
+    std::hint::black_box(&warm);
 }
 
 fn dispatch<E: Engine>(cmd: &str, args: &[String]) -> i32 {
@@ -92,6 +97,14 @@ fn main() {
         }
         "dn-sim" => dispatch::<dn_sim::DnSim>(&args[2], &args[3..]),
         "sign-sim" => dispatch::<sign_sim::SignSim>(&args[2], &args[3..]),
+        "replica-sim" => dispatch::<replica::ReplicaSim>(&args[2], &args[3..]),
+        #[cfg(feature = "crypto")]
+        "xchg-produce" => replica::xchg_produce(
+            arg(&args, "--seed").and_then(|s| s.parse().ok()).unwrap_or(20261003),
+            arg(&args, "--rounds").and_then(|s| s.parse().ok()).unwrap_or(2),
+        ),
+        #[cfg(feature = "crypto")]
+        "xchg-consume" => replica::xchg_consume(&arg(&args, "--in").expect("--in")),
         "purity-hist" => dispatch::<purity::PurityHist>(&args[2], &args[3..]),
         #[cfg(feature = "shuttle")]
         "purity-shuttle" => dispatch::<purity::PurityShuttle>(&args[2], &args[3..]),
